@@ -10,7 +10,9 @@ def match_known(prop, failure, known):
     for e in known.get("findings", []):
         if e.get("property") != prop or e.get("engine") != "mirsym":
             continue
-        if e.get("check") == failure.check and all(s in failure.label for s in e.get("label_contains", [])):
+        import re as _re
+        same = e.get("check") == failure.check or (e.get("check_regex") and _re.fullmatch(e["check_regex"], failure.check))
+        if same and all(s in failure.label for s in e.get("label_contains", [])):
             return e
     return None
 
@@ -24,6 +26,48 @@ def write_replay(prop, failure, extra):
         json.dump({"property": prop, "check": failure.check, "label": failure.label, "kind": failure.kind,
                    "model": failure.model, "schedule": failure.trace, "replay": extra}, f, indent=1, default=str)
     return path
+
+
+_FORK = {}
+
+
+def _one_check(i):
+    """Runs in a forked child: the plan (MIR already loaded) is inherited, results come back pickled."""
+    from explore import explore
+    from interp import Unsupported
+    plan, checks, tier = _FORK["plan"], _FORK["checks"], _FORK["tier"]
+    item = checks[i]
+    name, body = item[0], item[1]
+    custom = len(item) > 2 and item[2] == "custom"
+    try:
+        if custom:
+            st, fails = body(seed())
+        else:
+            st, fails = explore(name, body, seed=seed(), keep_smt2=(tier == "thorough"))
+    except Unsupported as e:
+        return ("unsupported", str(e), None, [])
+    except Exception as e:
+        return ("error", "%r at %s" % (e, getattr(e, "mir_where", "?")), None, [])
+    return ("ok", st, fails, sorted(plan.encoded()))
+
+
+def _run_checks(plan, checks, tier):
+    """The checks of one property are independent: run them in forked worker processes (VERIF_JOBS, default 8).
+    The functions each child interpreted are merged back so that the evidence lists them."""
+    import multiprocessing
+    jobs = int(os.environ.get("VERIF_JOBS", "8"))
+    _FORK.update(plan=plan, checks=checks, tier=tier)
+    if jobs <= 1 or len(checks) <= 1:
+        out = [_one_check(i) for i in range(len(checks))]
+    else:
+        ctx = multiprocessing.get_context("fork")
+        with ctx.Pool(processes=min(jobs, len(checks))) as pool:
+            out = pool.map(_one_check, range(len(checks)), chunksize=1)
+    extra = set()
+    for r in out:
+        extra |= set(r[3] or [])
+    plan._encoded_extra = extra
+    return out
 
 
 def run(prop, tier, plan, assumptions):
@@ -51,22 +95,19 @@ def run(prop, tier, plan, assumptions):
                        "explanation": "check could not start: %s" % e}, assumptions, timer.s(), 0)
         return BROKEN
     tot = dict(paths=0, queries=0, obligations=0, discharged=0, solver_s=0.0, infeasible=0)
-    for item in checks:
-        name, body = item[0], item[1]
+    results = _run_checks(plan, checks, tier)
+    for item, res in zip(checks, results):
+        name = item[0]
         custom = len(item) > 2 and item[2] == "custom"
-        try:
-            if custom:
-                st, fails = body(seed())
-            else:
-                st, fails = explore(name, body, seed=seed(), keep_smt2=(tier == "thorough"))
-        except Unsupported as e:
-            log("  [mirsym] %-40s BROKEN: %s" % (name, e))
-            broken.append("%s: %s" % (name, e))
+        if res[0] == "unsupported":
+            log("  [mirsym] %-40s BROKEN: %s" % (name, res[1]))
+            broken.append("%s: %s" % (name, res[1]))
             continue
-        except Exception as e:
-            log("  [mirsym] %-40s BROKEN (interpreter error): %r" % (name, e))
-            broken.append("%s: interpreter error %r" % (name, e))
+        if res[0] == "error":
+            log("  [mirsym] %-40s BROKEN (interpreter error): %s" % (name, res[1]))
+            broken.append("%s: interpreter error %s" % (name, res[1]))
             continue
+        st, fails = res[1], res[2]
         log("  [mirsym] %-40s paths=%d queries=%d obligations=%d/%d solver=%.1fs%s" % (
             name, st.paths, st.queries, st.discharged, st.obligations, st.solver_s,
             "  FAILS=%d" % len(fails) if fails else ""))
@@ -124,7 +165,7 @@ def run(prop, tier, plan, assumptions):
         "explanation": "states = feasible symbolic paths through the interpreted MIR (each covers all values satisfying "
                        "its path condition); transitions = solver queries (path feasibility + obligations); every "
                        "obligation is checked unsat-negated on every path",
-        "functions_encoded": plan.encoded(),
+        "functions_encoded": sorted(set(plan.encoded()) | getattr(plan, "_encoded_extra", set())),
         "summaries": plan.summaries,
         "bounds": plan.bounds(tier),
         "solver_seconds": round(tot["solver_s"], 2),
